@@ -121,9 +121,10 @@ func zinterKeyFunc(cmd []string) (internal.KeyExtractionFuncResult, error) {
 		}, nil
 	}
 	if endIdx >= 1 {
+		// endIdx is relative to cmd[1:], so the keys are cmd[1] up to and including cmd[endIdx].
 		return internal.KeyExtractionFuncResult{
 			Channels:  make([]string, 0),
-			ReadKeys:  cmd[1:endIdx],
+			ReadKeys:  cmd[1 : endIdx+1],
 			WriteKeys: make([]string, 0),
 		}, nil
 	}
@@ -346,10 +347,12 @@ func zunionKeyFunc(cmd []string) (internal.KeyExtractionFuncResult, error) {
 		}, nil
 	}
 	if endIdx >= 1 {
+		// endIdx is relative to cmd[1:], so the keys are cmd[1] up to and including cmd[endIdx].
+		// ZUNION only reads its operands.
 		return internal.KeyExtractionFuncResult{
 			Channels:  make([]string, 0),
-			ReadKeys:  cmd[1:endIdx],
-			WriteKeys: cmd[1:endIdx],
+			ReadKeys:  cmd[1 : endIdx+1],
+			WriteKeys: make([]string, 0),
 		}, nil
 	}
 	return internal.KeyExtractionFuncResult{}, errors.New(constants.WrongArgsResponse)
